@@ -179,10 +179,12 @@ def run(ctx, rep):
         R = T.call("note::Note::parse_at", ("E",), [f("endian"), f("class"), f("align"), T.refval(f("offset")), f("data")])
         okp = 0
         for t, st, calls in an2.paths() or []:
+            if t.op == "agg" and t.args[3] == "None" and ("var", R, "Err") in st.facts:
+                continue    # parse_at failed: `.ok()` (or the equivalent match) ends the iteration
             if t.op == "agg" and t.args[3] == "None":
                 e = an2.truth(st.facts, T.bin("Eq", T.length(f("data")), T.const("usize", 0), "usize"))
                 rep.require(e is True, "iterator", "next:none", wh(fn2["span"]), "early None only for empty data", "NoteIterator::next returns None early under another condition")
-            elif t.op == "call" and t.args[0] == "result::Result::ok" and t.args[2][0] is R:
+            elif t.op == "agg" and t.args[3] == "Some" and t.args[4][0] is T.payload(R, "Ok") and ("var", R, "Ok") in st.facts:
                 okp += 1
             else:
                 rep.bad("iterator", "next:outcome", wh(fn2["span"]), "NoteIterator::next is not Note::parse_at(self.endian, self.class, self.align, &mut self.offset, self.data).ok(): %s" % pp(t)[:200])
